@@ -1,4 +1,5 @@
 SPECIFICATION Spec
+CONSTANT CheckBounds = TRUE
 CONSTANT MaxRows = 9
 INVARIANT WindowRows
 INVARIANT Served
